@@ -115,8 +115,8 @@ FILLER = Obj(
 def filler_wf(s):
     """Well-formedness of a Filler as its constructor establishes it (normalize_height / normalize_valign)."""
     return both(
-        0 <= s.valign_amount, s.valign_amount <= 100, 0 <= s.top, s.top < B, 0 <= s.bottom, s.bottom < B,
-        implies(s.height_type == "given", both(s.height_amount >= 0, s.height_amount < B)),
+        0 <= s.valign_amount, s.valign_amount <= 100, 0 <= s.top, s.top < PARTMAX, 0 <= s.bottom, s.bottom < PARTMAX,
+        implies(s.height_type == "given", both(s.height_amount >= 0, s.height_amount < PARTMAX)),
         implies(s.height_type == "relative", both(s.height_amount >= 0, s.height_amount <= 100)),
         implies(neg(s.height_type == "relative"), mk_bool(s.min_height.isnone)),
         implies(neg(mk_bool(s.min_height.isnone)), both(s.min_height.val >= 0, s.min_height.val < B)),
@@ -124,7 +124,7 @@ def filler_wf(s):
 
 
 def size_ok(size):
-    return both(*[both(x >= 1, x < B) for x in size])
+    return both(*[both(x >= 0, x < DIMMAX) for x in size])
 
 
 def filler_geometry(s, size, focus):
